@@ -43,6 +43,7 @@ TOUCHES = ["compute_bounds", "compute_bounds_poison", "shapely", "repr", "dump",
            "model_copy", "temporal_self", "in_clip_self"]
 FORMS = ["kw", "pos", "kw_rev", "mixed", "explicit_none"]
 BOXES = ["tuple", "list", "ndarray", "namedtuple"]
+FALLBACKS = {}      # construction / change paths the data model refused (tallied by the check, never a verdict)
 
 
 def _conv(c, f):
@@ -69,7 +70,17 @@ def _subclass(cls):
 
 
 def build_geom(gj, how="validate"):
-    """a geometry object carrying `gj`, through one of the construction paths of the data model"""
+    """a geometry object carrying `gj`, through one of the construction paths of the data model; a path the data
+    model does not (any longer) offer is not C12's business: the plain validated object is used instead"""
+    if how != "validate":
+        try:
+            return _build_geom(gj, how)
+        except Exception:  # noqa: BLE001
+            FALLBACKS["geometry:" + how] = FALLBACKS.get("geometry:" + how, 0) + 1
+    return gen_geom.to_data(gj)
+
+
+def _build_geom(gj, how):
     from soundevent import data
     cls = getattr(data, gj["type"])
     c = gen_geom.coords_float(gj)
@@ -167,7 +178,17 @@ def _uuid(n):
 
 
 def build_clip(step, old=None):
-    """a clip [start, end]: a fresh one, or the clip the slot holds changed to the new times"""
+    """a clip [start, end]: a fresh one, or the clip the slot holds changed to the new times (a construction path
+    the data model does not offer falls back to the constructor)"""
+    try:
+        return _build_clip(step, old)
+    except Exception:  # noqa: BLE001
+        from soundevent import data
+        FALLBACKS["clip:" + str(step.get("how"))] = FALLBACKS.get("clip:" + str(step.get("how")), 0) + 1
+        return data.Clip(recording=recording(), start_time=float(frac(step["start"])), end_time=float(frac(step["end"])))
+
+
+def _build_clip(step, old=None):
     from soundevent import data
     how, num = step.get("how", "new"), step.get("num", "float")
     s, e = _num(step["start"], num), _num(step["end"], num)
@@ -330,6 +351,7 @@ def run_session(inp):
                     new, own = change_geom(old, step["g"], how, owned.get(src, False))
                 except Exception:  # noqa: BLE001 - the library refuses this way of changing a geometry
                     new = None
+                    FALLBACKS["change:" + how] = FALLBACKS.get("change:" + how, 0) + 1
             if new is None:
                 new, own = build_geom(step["g"], step.get("build", "validate")), True
             geoms[k], owned[k] = new, own
